@@ -19,6 +19,9 @@ pub fn seed_alphabet(len: usize, with_w2: bool) -> Vec<Vec<u8>> {
             v.push(alphabet::with_bits(len, &[i, j]));
         }
     }
+    // the sub-alphabets overlap (e.g. byte probe 0x01 is a weight-1 seed): keep each seed once
+    let mut seen = std::collections::HashSet::new();
+    v.retain(|s| seen.insert(s.clone()));
     v
 }
 
